@@ -1,6 +1,45 @@
 from lib import translate_derive
 
+import os
+import re
+
+
+def search(run):
+    """Failing-input search when an obligation broke (a codec the translator can no longer read, a generated schema
+    outside the fragment of the theorem, ..) and the regular run saw no violation: many more generated values of
+    exactly the types the translator complained about and of the types that contain them, on the implementation
+    with its round-trip oracle. Returns the first violation that is not a known finding."""
+    from lib import core
+    tr = translate_derive.Translator(core.REPO)
+    tr.run(translate_derive.claimed_names())
+    names = sorted({u.split(":")[0].strip() for u in tr.unknowns})
+    broken = " ".join(b.get("detail", "") + " " + b.get("name", "") for b in run.broken)
+    names += [d for d, _ in tr.rust_table if re.search(r"\b" + re.escape(d.replace(".", "_")) + r"\b", broken) and d not in names]
+    if not names or not os.path.exists(core.PVH):
+        return None
+    findings = core.load_findings(run.prop)
+    old = os.environ.get("PV_SCHEMA_ONLY")
+    os.environ["PV_SCHEMA_ONLY"] = ",".join(names)
+    try:
+        for k in range(1, 7):
+            rc, ops, err = core.sh([core.PVH, "gen", "schema", "--seed", str(run.seed + 7000 * k), "--cases", "4000", "--tier", run.tier], timeout=900)
+            if rc != 0 or not ops:
+                return None
+            impl, model, problems = core.run_pair("schema", ops, timeout=1800)
+            for r in core.compare(ops, impl, model):
+                for key, detail in r.viols:
+                    if not any(re.search(f["key_regex"], key) for f in findings):
+                        return {"stream": "schema", "key": key, "detail": detail, "case": r, "source": f"search PV_SCHEMA_ONLY={','.join(names)} seed={run.seed + 7000 * k}"}
+    finally:
+        if old is None:
+            os.environ.pop("PV_SCHEMA_ONLY", None)
+        else:
+            os.environ["PV_SCHEMA_ONLY"] = old
+    return None
+
+
 SPEC = {
+    "search": search,
     "id": "C06",
     "level": "proof",
     "lean_modules": ["PallasVerif.Props.C06"],
